@@ -147,9 +147,32 @@ def run_replicas(scn, reps):
             r.config.calls[edit["call_index"]] = pl.build_config(edit["one_call_config"]).calls[0]
             r.edited = True
 
+    def grow(name):
+        # between two runs the data source gains a column / variable (a file being appended to, a frame being filled)
+        plan = scn.get("grow")
+        r = by_name.get(name)
+        if plan and r is not None and name in plan["on"] and not getattr(r, "grown", False) and r.stream is not None:
+            arr = pl.col(plan["values"])
+            fe = r.frontend
+            if fe == "pandas":
+                r.stream.df[plan["sid"]] = arr
+            elif fe == "numpy" and isinstance(r.stream.inp, dict):
+                r.stream.inp[plan["sid"]] = arr
+            elif fe in ("netcdf_obj", "xarray_obj"):
+                ds = r.stream.path_or_ncd
+                dim = pl.axis_names(scn["table"])["time"] if scn["table"].get("xr_time", "coord") == "coord" else "obs"
+                ds[plan["sid"]] = (dim, arr)
+            else:
+                return
+            r.grown = True
+
+    def between_runs(name):
+        on_rerun(name)
+        grow(name)
+
     sch = Scheduler(
         tasks,
-        on_rerun=on_rerun,
+        on_rerun=between_runs,
         schedule=scn.get("schedule"),
         abandon=[a for a in scn.get("abandon", []) if a["task"] in names],
         reruns=[n for n in scn.get("reruns", []) if n in names],
